@@ -103,6 +103,10 @@ def do_sweep(job):
     lines, meta = [], []
     for L in lens:
         base = bytes(rng.randint(lo, hi) for _ in range(L))
+        if m in ("descrypt", "bigcrypt", "bsdicrypt") and L % 2:
+            # 8-bit text (UTF-8 and friends): bytes 0x80..0xFF inside the window, among them 0x80
+            # itself, whose seven low bits are all zero
+            base = bytes(rng.choice([0x80, 0xC3, 0xE2, rng.randint(0x81, 0xFE), rng.randint(0x21, 0x7E)]) for _ in range(L))
         win = min(window(m, s, L), L)
         pos = sorted(set([0, win - 1, rng.randrange(win)]))
         lines.append(rt.crypt_line("crypt_rn", 0, base, s))
@@ -137,17 +141,21 @@ def do_sweep(job):
 
 
 def perturb(rng, m, base, i):
-    """phrase perturbations at position i: (label, phrase)"""
+    """phrase perturbations at position i: (label, phrase).  For the methods whose
+    8th bit is documented as insignificant only the low seven bits are changed
+    (the 8th bit of the byte, set or not, is kept)."""
     out = []
     seven = m in SEVEN_BIT
     b = base[i]
     bit = rng.randrange(7 if seven else 8)
     nb = b ^ (1 << bit)
-    if nb == 0 or (seven and nb >= 0x80):
-        nb = b ^ 1 if (b ^ 1) else b ^ 2
+    if (nb & 0x7F if seven else nb) == 0:
+        nb = b ^ 1 if ((b ^ 1) & 0x7F if seven else (b ^ 1)) else b ^ 2
     out.append(("bitflip", base[:i] + bytes([nb]) + base[i + 1:]))
     while True:
         c = rng.randint(1, 127 if seven else 255)
+        if seven:
+            c |= b & 0x80
         if c != b and c != nb:
             break
     out.append(("byte", base[:i] + bytes([c]) + base[i + 1:]))
